@@ -29,6 +29,8 @@ impl PanicInfo {
 
 thread_local! {
     static LAST: RefCell<Option<PanicInfo>> = RefCell::new(None);
+    /// > 0 while inside `catch` on this thread: panics are expected and recorded silently.
+    static ARMED: std::cell::Cell<u32> = std::cell::Cell::new(0);
 }
 
 /// Install a global hook that prints nothing and remembers the last panic per thread.
@@ -45,6 +47,10 @@ pub fn install_silent_hook() {
             .location()
             .map(|l| format!("{}:{}", l.file(), l.line()))
             .unwrap_or_else(|| "<unknown>".into());
+        if ARMED.with(|a| a.get()) == 0 {
+            // a panic outside `catch` is a bug of the harness itself: say so loudly
+            eprintln!("MACHINERY-ERROR harness panic at {}: {}", loc, msg);
+        }
         LAST.with(|l| *l.borrow_mut() = Some(PanicInfo { msg, loc }));
     }));
 }
@@ -52,7 +58,10 @@ pub fn install_silent_hook() {
 /// Run `f`, turning a panic into `Err(PanicInfo)`.
 pub fn catch<T>(f: impl FnOnce() -> T) -> Result<T, PanicInfo> {
     LAST.with(|l| *l.borrow_mut() = None);
-    match catch_unwind(AssertUnwindSafe(f)) {
+    ARMED.with(|a| a.set(a.get() + 1));
+    let r = catch_unwind(AssertUnwindSafe(f));
+    ARMED.with(|a| a.set(a.get() - 1));
+    match r {
         Ok(v) => Ok(v),
         Err(_) => Err(LAST.with(|l| l.borrow_mut().take()).unwrap_or(PanicInfo {
             msg: "<panic without hook info>".into(),
